@@ -324,7 +324,10 @@ class LintTranslator(pytolean.Translator):
             elif isinstance(it, ast.Call) and isinstance(it.func, ast.Name) and it.func.id == "enumerate" and len(it.args) == 1 \
                     and not it.keywords and len(tg) == 2:
                 items = f"({PYLN}enumerate {self.E(it.args[0])})"
-                pat = f"({ident(tg[0])}, {ident(tg[1])})"
+                pv = "pair"
+                while pv in self.locals:
+                    pv += "'"
+                pat = pv
             elif len(tg) == 1 and not (isinstance(it, ast.Call) and isinstance(it.func, ast.Name) and it.func.id in ("range", "enumerate", "zip")):
                 items = f"(Rbacx.Py.iter {self.E(it)})"
                 pat = ident(tg[0])
@@ -333,7 +336,8 @@ class LintTranslator(pytolean.Translator):
             s = self.tup(carried)
             body = self.block(st.body, ind + "    ", f"{PYLN}Step.next {s}", hd, f"{PYLN}Step.brk {s}", f"{PYLN}Step.next {s}", None,
                               (live_after, hd))
-            return f"let {s} := {PYLN}forStep (fun {pat} {s} =>\n{ind}    {body}) {items} {s}\n{ind}" + nxt()
+            unpack = f"let {ident(tg[0])} := {pat}.1\n{ind}    let {ident(tg[1])} := {pat}.2\n{ind}    " if len(tg) == 2 else ""
+            return f"let {s} := {PYLN}forStep (fun {pat} {s} =>\n{ind}    {unpack}{body}) {items} {s}\n{ind}" + nxt()
         raise Unsupported(f"statement {type(st).__name__}: {ast.unparse(st)[:50]!r}".replace("\n", " "))
 
     # ------------------------------------------------------------------ functions
